@@ -238,8 +238,15 @@ func (r *Request) SetQueryString(query string) *Request {
 // SetFileReader set up a multipart form with a reader to upload file.
 func (r *Request) SetFileReader(paramName, filename string, reader io.Reader) *Request {
 	used := false
-	_, seekable := reader.(io.Seeker)
+	sk, seekable := reader.(io.Seeker)
 	_, osFile := reader.(*os.File) // closed after the first upload
+	// the content supplied starts where the reader stands now: a caller may have read a header first
+	var start int64
+	if seekable {
+		if pos, err := sk.Seek(0, io.SeekCurrent); err == nil {
+			start = pos
+		}
+	}
 	r.SetFileUpload(FileUpload{
 		ParamName:    paramName,
 		FileName:     filename,
@@ -250,7 +257,7 @@ func (r *Request) SetFileReader(paramName, filename string, reader io.Reader) *R
 				if !ok {
 					return nil, errFileReaderNoRewind
 				}
-				if _, err := s.Seek(0, io.SeekStart); err != nil {
+				if _, err := s.Seek(start, io.SeekStart); err != nil {
 					return nil, err
 				}
 			}
